@@ -508,9 +508,17 @@ class Gen:
 
     def s_try(self):
         r = self.rng
-        body = self.block()
+        # the whole try body is one scope: generate it as such
+        self.push("block")
+        self.depth += 1
+        body = self.block_inline(r.randrange(1, self.p["block_len"]))
         if r.random() < 0.7:
-            body = body + [("if", [(self.bool_expr(1), [("throw", self.expr(r.choice([INT, STR]), 1))])], None)] + self.block(n=1)
+            body.append(("if", [(self.bool_expr(1), [("throw", self.expr(r.choice([INT, STR]), 1))])], None))
+            body += self.block_inline(1)
+        self.depth -= 1
+        self.pop()
+        if not body:
+            body = [("expr", ("int", 0))]
         ev = self.fresh("e")
         cb = self.block(n=r.randrange(1, 3))
         fin = self.block(n=1) if r.random() < 0.4 else None
